@@ -327,6 +327,23 @@ def translate(cfg, outdir):
             raise ExtractionError("cannot resolve enum constant %s::%s" % (et, name))
         enum_defs.append("#define %s (%d)" % (cn, vals[name]))
 
+    # ---- implicit (compiler-generated) copy/move assignment `a = b` of a class emitted as a plain C struct: memberwise
+    # copy == C struct assignment. Only when clang says every X::operator= it sees is implicit (never for user code).
+    implicit_assign = []
+    for cn, d in sorted(em.callees.items()):
+        if cn.endswith("__operator_assign") and cn not in em.unit_names and d.endswith("::operator=") and cn in em.protos:
+            tag = cn[:-len("__operator_assign")]
+            decls = []
+            for t in sorted(set(u["tu"] for u in units)):
+                decls = [o for o in astq.query(t, tag + "::operator=")
+                         if o.get("kind") == "CXXMethodDecl" and o.get("name") == "operator="]
+                if decls:
+                    break
+            if decls and all(o.get("isImplicit") for o in decls) and len(em.protos[cn][1]) == 2:
+                implicit_assign.append((cn, tag))
+                del em.callees[cn]
+                del em.protos[cn]
+
     # ---- header
     h = [models.COMMON]
     alltags = set(em.structs) | set(tm.used_structs)
@@ -373,6 +390,9 @@ def translate(cfg, outdir):
     for cn, et in sorted(em.lifted_new):
         h.append("static inline %s* %s(%s v) { %s* p = (%s*)malloc(sizeof(%s)); __CPROVER_assume(p != 0); *p = v; return p; }"
                  % (et, cn, et, et, et, et))
+    for cn, tag in implicit_assign:
+        h.append("static inline struct %s* %s(struct %s* a, struct %s* b) { *a = *b; return a; } /* implicit operator= */"
+                 % (tag, cn, tag, tag))
     h.append("static inline void* vf_new_array(size_t n, size_t sz) { void* p = calloc(n, sz); __CPROVER_assume(p != 0); return p; }")
     for cn, ct in sorted(em.globals.items()):
         h.append("extern %s %s;" % (ct, cn))
